@@ -16,11 +16,29 @@ use crate::util::{arg_req, arg_u64, arr, guarded, read_ndjson, run_rng, u, Out};
 
 /// Spec gene -> real gene.  Instructions that open no block carry their tag in a payload so
 /// that they can be told apart afterwards; the three one-block instructions encode tag mod 3.
+/// Look-alike genes: input variables (instructions that open no block) whose NAME is the printed
+/// form of another gene - the close marker and the four block openers with their braces. A genome
+/// made of them prints exactly like its twin and is a different genome.
+const LOOKALIKE: [u64; 5] = [7003, 7007, 7011, 7015, 7019];
+fn lookalike_name(t: u64) -> String {
+    let opener = |e: ExecInstruction, k: usize| format!("{}{}", PushInstruction::from(e), " {".repeat(k));
+    match t {
+        7003 => "}".to_string(),
+        7007 => opener(ExecInstruction::dup_block(), 1),
+        7011 => opener(ExecInstruction::when(), 1),
+        7015 => opener(ExecInstruction::unless(), 1),
+        _ => opener(ExecInstruction::if_else(), 2),
+    }
+}
+
 fn gene_from_json(g: &Value) -> PushGene {
     if g.get("c").is_some() {
         return PushGene::Close;
     }
     let t = u(&g["t"]);
+    if u(&g["o"]) == 0 && LOOKALIKE.contains(&t) {
+        return PushGene::Instruction(VariableName::from(lookalike_name(t).as_str()).into());
+    }
     let ins: PushInstruction = match u(&g["o"]) {
         0 => match t % 4 {
             0 => IntInstruction::push(t as i64).into(),
@@ -53,7 +71,10 @@ fn gene_to_json(i: &PushInstruction) -> Value {
             let OrderedFloat(x) = p.0;
             g(0, x as u64)
         }
-        PushInstruction::InputVar(n) => g(0, n.to_string()[1..].parse().unwrap_or(u64::MAX)),
+        PushInstruction::InputVar(n) => {
+            let name = n.to_string();
+            LOOKALIKE.iter().find(|t| lookalike_name(**t) == name).map_or_else(|| g(0, name.get(1..).and_then(|x| x.parse().ok()).unwrap_or(u64::MAX)), |t| g(0, *t))
+        }
         PushInstruction::Exec(ExecInstruction::DupBlock(_)) => g(1, 0),
         PushInstruction::Exec(ExecInstruction::When(_)) => g(1, 1),
         PushInstruction::Exec(ExecInstruction::Unless(_)) => g(1, 2),
@@ -179,6 +200,28 @@ pub fn trace(args: &[String]) -> i32 {
         let genes = Value::Array(genes);
         let prog = translate(&genes);
         out.line(&json!({"ev": "parse", "run": run, "genes": genes, "prog": prog}));
+        if run % 5 == 2 {
+            // the TWIN: every close marker and block opener replaced by its look-alike (prints the same,
+            // opens and closes nothing), translated right after the original
+            let twin: Vec<Value> = arr(&genes)
+                .iter()
+                .map(|g| {
+                    if g.get("c").is_some() {
+                        json!({"o": 0, "t": 7003})
+                    } else if u(&g["o"]) == 1 {
+                        let t = [7007u64, 7011, 7015][(u(&g["t"]) % 3) as usize];
+                        json!({"o": 0, "t": t})
+                    } else if u(&g["o"]) == 2 {
+                        json!({"o": 0, "t": 7019})
+                    } else {
+                        g.clone()
+                    }
+                })
+                .collect();
+            let twin = Value::Array(twin);
+            let prog = translate(&twin);
+            out.line(&json!({"ev": "parse", "run": run, "genes": twin, "prog": prog}));
+        }
         // the printed form (Display of Plushy): tokens "i" / "{" / "}" separated by single spaces
         if run % 4 == 0 {
             let real: Vec<PushGene> = arr(&genes).iter().map(gene_from_json).collect();
